@@ -104,6 +104,11 @@ type explorer struct {
 	completed int
 	refused   int
 	slowPath  int
+
+	pointCheck     string // evidence sub-check the crash points are booked under
+	nontrivial     bool
+	maxDepth       int
+	noResumeFaults bool
 }
 
 type verdict struct {
@@ -840,42 +845,43 @@ type point struct {
 
 const maxStatesPerCase = 4000
 
-// oracle wraps explore: a harness problem (scratch directory unreadable, fakedb asked for something
-// it does not model) is never reported as a verdict about DAWGS.
-func oracle(c Case) (info evid.Info, err error) {
-	defer func() {
-		if p := recover(); p != nil {
-			he, ok := p.(*harnessError)
-			if !ok {
-				panic(p)
+// guard turns a harness problem (scratch directory unreadable, fakedb asked for something it does
+// not model, strace missing) into "no verdict": it is never reported as a statement about DAWGS.
+func guard[C any](f func(C) (evid.Info, error)) evid.Oracle[C] {
+	return func(c C) (info evid.Info, err error) {
+		defer func() {
+			if p := recover(); p != nil {
+				he, ok := p.(*harnessError)
+				if !ok {
+					panic(p)
+				}
+				err = he
 			}
-			err = he
-		}
-		var he *harnessError
-		if err != nil && errors.As(err, &he) {
-			evid.R.Inconclusive("%s", he.Error())
-			info, err = evid.Info{Skip: "harness problem"}, nil
-		}
-	}()
-	return explore(c)
+			var he *harnessError
+			if err != nil && errors.As(err, &he) {
+				evid.R.Inconclusive("%s", he.Error())
+				info, err = evid.Info{Skip: "harness problem"}, nil
+			}
+		}()
+		return f(c)
+	}
 }
 
-func explore(c Case) (evid.Info, error) {
-	info := evid.Info{}
+// newExplorer seeds the source, runs the uninterrupted dump with every fsStep observed, and
+// validates it with the C18 oracle; it becomes the reference "uninterrupted dump".
+func newExplorer(c Case) (x *explorer, base dumpRun, skip string, err error) {
 	if c.entityCount() > maxEntities+6 || c.DumpBatch < 1 || c.ShardSize < 1 || len(c.Graphs) == 0 {
-		info.Skip = "case outside the generated domain"
-		return info, nil
+		return nil, base, "case outside the generated domain", nil
 	}
 	src, err := fakedb.FromSpec(c.spec())
 	if err != nil {
-		return info, fmt.Errorf("harness: generated case is not a valid database: %w", err)
+		return nil, base, "", &harnessError{"generated case is not a valid database: " + err.Error()}
 	}
 	root, err := os.MkdirTemp(scratchBase(), "verif-c19-")
 	if err != nil {
-		return info, fmt.Errorf("harness: %w", err)
+		return nil, base, "", &harnessError{err.Error()}
 	}
-	defer os.RemoveAll(root)
-	x := &explorer{c: c, src: src, root: root, memo: map[[32]byte]*verdict{}, altDBs: map[string]*fakedb.DB{}}
+	x = &explorer{c: c, src: src, root: root, memo: map[[32]byte]*verdict{}, altDBs: map[string]*fakedb.DB{}, pointCheck: "points"}
 	for _, g := range c.Graphs {
 		x.targets = append(x.targets, retriever.GraphTarget{Name: g.Name})
 		snap := src.Snapshot(g.Name)
@@ -883,50 +889,45 @@ func explore(c Case) (evid.Info, error) {
 		x.totalN += int64(len(snap.Nodes))
 		x.totalE += int64(len(snap.Edges))
 	}
-
-	// the uninterrupted dump, observed at every file-system step
 	baseDir := x.newDir()
-	base := x.dump(baseDir, false, nil, nil, true, nil)
+	base = x.dump(baseDir, false, nil, nil, true, nil)
 	_ = os.RemoveAll(baseDir)
 	if base.err != nil {
-		info.Skip = "the uninterrupted dump fails (C18's business)"
-		return info, nil
+		x.close()
+		return nil, base, "the uninterrupted dump fails (C18's business)", nil
 	}
 	x.ref = base.final
 	if raw, ok := x.ref.get(retriever.ManifestFileName); ok {
 		x.refManNorm, _ = normManifest(raw)
 	}
 	if err := x.fullCheck(x.ref, false); err != nil {
+		x.close()
 		var he *harnessError
 		if errors.As(err, &he) {
-			info.Skip = he.Error()
-			return info, nil
+			return nil, base, "", he
 		}
-		info.Skip = "the uninterrupted dump fails the C18 oracle (C18's business)"
-		return info, nil
+		return nil, base, "the uninterrupted dump fails the C18 oracle (C18's business)", nil
 	}
 	x.checkHooksComplete(base, "dump")
+	return x, base, "", nil
+}
 
-	queue := x.crashItems(base, 1, "")
-	faulted, err := x.faultedRuns(nil, base, 1, "")
-	if err != nil {
-		return info, err
-	}
-	queue = append(queue, faulted...)
+func (x *explorer) close() { _ = os.RemoveAll(x.root) }
 
-	classes := map[string]bool{"codec=" + c.Compression: true, fmt.Sprintf("graphs=%d", len(c.Graphs)): true, fmt.Sprintf("scrub=%v", c.Scrub): true}
-	nontrivial := false
-	maxDepth := 0
+// drain judges every queued crash state and everything reachable from it by crashing (or failing)
+// again during the resume, until no new directory state appears.
+func (x *explorer) drain(queue []item) error {
+	c := x.c
 	for len(queue) > 0 {
 		it := queue[0]
 		queue = queue[1:]
 		v, first, err := x.eval(it)
 		if err != nil {
-			return info, fmt.Errorf("crash point [%s] (%s, depth %d): %w", it.chain, it.kind, it.depth, err)
+			return fmt.Errorf("crash point [%s] (%s, depth %d): %w", it.chain, it.kind, it.depth, err)
 		}
 		x.points++
-		if it.depth > maxDepth {
-			maxDepth = it.depth
+		if it.depth > x.maxDepth {
+			x.maxDepth = it.depth
 		}
 		pinfo := evid.Info{NonTrivial: v.k.midPhase(), Key: it.kind + "|" + it.chain + "|" + c.config()}
 		d := it.depth
@@ -940,16 +941,24 @@ func explore(c Case) (evid.Info, error) {
 		case v.hasCk:
 			stateKind = "checkpoint"
 		}
+		short := strings.SplitN(v.outcome, ":", 2)[0]
 		pinfo.Classes = []string{"kind=" + it.kind, fmt.Sprintf("depth=%d", d), "state=" + stateKind, "resume=" + v.outcome, "codec=" + c.Compression,
-			"site=" + it.site + "/" + strings.SplitN(v.outcome, ":", 2)[0]}
+			"site=" + it.site + "/" + short}
 		if pinfo.NonTrivial {
-			nontrivial = true
-			pinfo.Classes = append(pinfo.Classes, "mid-phase/"+strings.SplitN(v.outcome, ":", 2)[0])
+			x.nontrivial = true
+			pinfo.Classes = append(pinfo.Classes, "mid-phase/"+short)
 		}
 		if c.Scrub {
 			pinfo.Classes = append(pinfo.Classes, "scrub")
 		}
-		evid.R.Record("points", point{Kind: it.kind, Site: it.site, Occ: it.occ, Depth: it.depth, Chain: it.chain, Config: c.config()}, pinfo)
+		if it.kind == "kill" {
+			if first {
+				pinfo.Classes = append(pinfo.Classes, "state-not-among-the-modelled-ones")
+			} else {
+				pinfo.Classes = append(pinfo.Classes, "state-among-the-modelled-ones")
+			}
+		}
+		evid.R.Record(x.pointCheck, point{Kind: it.kind, Site: it.site, Occ: it.occ, Depth: it.depth, Chain: it.chain, Config: c.config()}, pinfo)
 		if !first {
 			continue
 		}
@@ -962,19 +971,25 @@ func explore(c Case) (evid.Info, error) {
 		if v.resume.err != nil && v.resume.final.hash != it.st.hash {
 			queue = append(queue, item{st: v.resume.final, kind: "exit", site: "resume-refused", depth: it.depth + 1, chain: it.chain + " > exit"})
 		}
-		if (evid.R.Thorough() || v.idx%25 == c.Pick*5) && (v.hasCk && !v.hasMan) {
+		if (evid.R.Thorough() || v.idx%25 == c.Pick*5) && (v.hasCk && !v.hasMan) && !x.noResumeFaults {
 			st := it.st
 			more, err := x.faultedRuns(&st, v.resume, it.depth+1, it.chain)
 			if err != nil {
-				return info, fmt.Errorf("crash point [%s]: %w", it.chain, err)
+				return fmt.Errorf("crash point [%s]: %w", it.chain, err)
 			}
 			queue = append(queue, more...)
 		}
 	}
-	if n := src.WriteCount(); n != 0 {
-		return info, fmt.Errorf("Dump wrote to the source database (%d writes: %+v)", n, src.Mutations())
+	return nil
+}
+
+// finish: checks that hold for the case as a whole, and the case's evidence.
+func (x *explorer) finish(info *evid.Info, prefix string, baseSteps int) error {
+	c := x.c
+	if n := x.src.WriteCount(); n != 0 {
+		return fmt.Errorf("Dump wrote to the source database (%d writes: %+v)", n, x.src.Mutations())
 	}
-	unsupported := src.Unsupported()
+	unsupported := x.src.Unsupported()
 	for _, db := range x.altDBs {
 		if db != nil {
 			unsupported = append(unsupported, db.Unsupported()...)
@@ -982,38 +997,57 @@ func explore(c Case) (evid.Info, error) {
 	}
 	if len(unsupported) > 0 {
 		info.Skip = "fakedb unsupported: " + unsupported[0]
-		return info, nil
+		return nil
 	}
 	if os.Getenv("C19_DEBUG") != "" {
-		fmt.Printf("case %s entities=%d base_steps=%d points=%d states=%d completed=%d refused=%d slow=%d dirs=%d\n", c.config(), c.entityCount(), len(base.steps), x.points, x.nStates, x.completed, x.refused, x.slowPath, x.seq)
+		fmt.Printf("%scase %s entities=%d base_steps=%d points=%d states=%d completed=%d refused=%d slow=%d dirs=%d\n", prefix, c.config(), c.entityCount(), baseSteps, x.points, x.nStates, x.completed, x.refused, x.slowPath, x.seq)
 	}
-	evid.R.AddExtraCount("crash_points", x.points)
-	evid.R.AddExtraCount("distinct_directory_states", x.nStates)
-	evid.R.AddExtraCount("resumes_completed", x.completed)
-	evid.R.AddExtraCount("resumes_refused", x.refused)
-	evid.R.AddExtraCount("completed_resumes_checked_by_full_c18_oracle", x.slowPath)
-	evid.R.AddExtraCount("base_fs_steps", len(base.steps))
+	evid.R.AddExtraCount(prefix+"crash_points", x.points)
+	evid.R.AddExtraCount(prefix+"distinct_directory_states", x.nStates)
+	evid.R.AddExtraCount(prefix+"resumes_completed", x.completed)
+	evid.R.AddExtraCount(prefix+"resumes_refused", x.refused)
+	evid.R.AddExtraCount(prefix+"completed_resumes_checked_by_full_c18_oracle", x.slowPath)
+	evid.R.AddExtraCount(prefix+"base_fs_steps", baseSteps)
+	classes := map[string]bool{"codec=" + c.Compression: true, fmt.Sprintf("graphs=%d", len(c.Graphs)): true, fmt.Sprintf("scrub=%v", c.Scrub): true}
 	if x.truncated {
-		evid.R.AddExtraCount("cases_truncated_at_state_cap", 1)
+		evid.R.AddExtraCount(prefix+"cases_truncated_at_state_cap", 1)
 		classes["truncated"] = true
 	} else {
 		classes["exhaustive"] = true
 	}
-	classes[fmt.Sprintf("max-depth=%d", min(maxDepth, 6))] = true
+	classes[fmt.Sprintf("max-depth=%d", min(x.maxDepth, 6))] = true
 	for k := range classes {
 		info.Classes = append(info.Classes, k)
 	}
 	sort.Strings(info.Classes)
-	info.NonTrivial = nontrivial
-	info.Key = ""
-	return info, nil
+	info.NonTrivial = x.nontrivial
+	return nil
+}
+
+func explore(c Case) (evid.Info, error) {
+	info := evid.Info{}
+	x, base, skip, err := newExplorer(c)
+	if err != nil || skip != "" {
+		info.Skip = skip
+		return info, err
+	}
+	defer x.close()
+	queue := x.crashItems(base, 1, "")
+	faulted, err := x.faultedRuns(nil, base, 1, "")
+	if err != nil {
+		return info, err
+	}
+	if err := x.drain(append(queue, faulted...)); err != nil {
+		return info, err
+	}
+	return info, x.finish(&info, "", len(base.steps))
 }
 
 func TestC19Enumerate(t *testing.T) {
 	evid.R.Extra("exhaustive_crash_points_per_case", true)
-	n := evid.R.N(24, 25)
+	n := evid.R.N(32, 25)
 	if v, err := strconv.Atoi(os.Getenv("C19_N")); err == nil && v > 0 {
 		n = v // development aid
 	}
-	evid.Prop(t, "enumerate", n, genCase, oracle)
+	evid.Prop(t, "enumerate", n, genCase, guard(explore))
 }
